@@ -18,7 +18,8 @@ RULE = ('Hypothesis cases: signer seed, message 0-512 bytes, tweak material (ran
         '256 drawn positions for long messages) must be rejected by the adapter check. Both MAKE_ADAPTER ops; builder '
         'level: make_adapter_witness + make_adapter_locks_pub/_prv + make_adapter_decrypt / decrypt_adapter and the '
         'deprecated single-script locks. non-trivial = unclamped or edge scalar, message >= 256 bytes or empty, or any '
-        'corruption (every case enumerates > 1000 corruptions); distinct by the case parameters.')
+        'corruption (every case enumerates > 1000 corruptions); distinct by the case parameters.'
+        ' Task sessions: two adapters, 2-5 check / decrypt (own or other scalar) operations in ONE run, each result compared with the reference in isolation; the deprecated single-script locks with every flag value.')
 ASSUMPTIONS = ['vt/ed25519_ref.py (RFC 8032 strict verification: canonical s < L) decides "valid signature"',
                '"another scalar" means clamp(t\') mod L != t mod L (DECRYPT clears bit 255 and works mod L)']
 
